@@ -135,6 +135,29 @@ func anyNode(loc gts.Location, pred func(gts.Location) bool) bool {
 	return false
 }
 
+// leafCount is the number of leaf parts (points, sites, ranges, ambiguous spans) a location value is written with.
+func leafCount(loc gts.Location) int {
+	switch v := loc.(type) {
+	case nil:
+		return 0
+	case gts.Joined:
+		n := 0
+		for _, l := range v {
+			n += leafCount(l)
+		}
+		return n
+	case gts.Ordered:
+		n := 0
+		for _, l := range v {
+			n += leafCount(l)
+		}
+		return n
+	case gts.Complemented:
+		return leafCount(v.Location)
+	}
+	return 1
+}
+
 func hasBetween(loc gts.Location) bool {
 	return anyNode(loc, func(l gts.Location) bool { _, ok := l.(gts.Between); return ok })
 }
@@ -197,4 +220,8 @@ func multiTables() (L int, tables [][]string) {
 		}
 	}
 	return 6, tables
+}
+
+func hasAmbiguous(loc gts.Location) bool {
+	return anyNode(loc, func(l gts.Location) bool { _, ok := l.(gts.Ambiguous); return ok })
 }
